@@ -17,6 +17,7 @@ import OdeVerif.Model.Validate
 import OdeVerif.Model.Config
 import OdeVerif.Model.Cli
 import OdeVerif.Model.FromFunction
+import OdeVerif.Model.Singularity
 
 open Lean
 
@@ -479,6 +480,34 @@ def opFromFunction (j : Json) : Except String Json := do
   | .error .noNonzeroSample => pure (Json.mkObj [("error", Json.str "no-nonzero-sample")])
   | .error .noOde => pure (Json.mkObj [("error", Json.str "no-ode")])
 
+/-! ### C11 singularity detection -/
+
+partial def parseEx (j : Json) : Except String Singularity.Ex := do
+  match j.getObjVal? "a" with
+  | .ok a => pure (.atom (← fromJson? a : Nat))
+  | .error _ =>
+    match j.getObjVal? "n" with
+    | .ok (Json.arr #[l, r]) => pure (.node (← parseEx l) (← parseEx r))
+    | _ =>
+      match j.getObjVal? "p" with
+      | .ok (Json.arr #[b, ng]) => pure (.pow (← parseEx b) (← fromJson? ng : Bool))
+      | _ => .error "bad expression tree"
+
+def opSingularities (j : Json) : Except String Json := do
+  let entries ← (← getArr j "entries").toList.mapM parseEx
+  let table ← (← getArr j "solve").toList.mapM (fun e => do
+    let a ← e.getArr?
+    match a.toList with
+    | [b, cs] => do pure ((← parseEx b), (← fromJson? cs : List Nat))
+    | _ => .error "bad solve entry")
+  let undefinedA ← j.getObjValAs? (List Nat) "undefined_A"
+  let solve : Singularity.Ex → List Nat := fun b => match table.find? (fun p => p.1 == b) with
+    | some p => p.2
+    | none => []
+  let r := Singularity.findSingularities solve (fun c => !undefinedA.contains c) entries
+  pure (Json.mkObj [("conditions", Json.arr (r.map (fun (c : Nat) => Json.num (JsonNumber.fromNat c))).toArray),
+                    ("n_bases", Json.num (JsonNumber.fromNat ((entries.flatMap Singularity.negBases).length)))])
+
 def dispatch (op : String) (j : Json) : Json :=
   match op with
   | "ping" => Json.mkObj [("pong", j)]
@@ -502,6 +531,7 @@ def dispatch (op : String) (j : Json) : Json :=
   | "config-run" => run (opConfigRun j)
   | "cli" => run (opCli j)
   | "from-function" => run (opFromFunction j)
+  | "singularities" => run (opSingularities j)
   | _ => jerr ("unknown-op: " ++ op)
 
 end OdeVerif.Driver
